@@ -533,6 +533,20 @@ def check(tier: str) -> Result:
     idflow = bool(pcalls) and all(uncopy(strip_cast(vs.get(p0))) is idp for vs, _ in pcalls if vs.get(p0) is not None) and all(vs.get(p0) is not None for vs, _ in pcalls)
     res.add("C18.R3", f.loc(), "registration.make", "the id handed to parse_env_id is the caller's id unchanged", idflow,
             f"{len(pcalls)} call(s) of parse_env_id from make" if idflow else f"parse_env_id receives {[txt(vs.get(p0), 4, 80) if vs.get(p0) is not None else None for vs, _ in pcalls]}, not the id parameter itself")
+    # get_env_id receives (name, version) = the two components of parse_env_id's result, in that order, in make and register
+    gp = fns["get_env_id"].params
+    for caller_name, vv, entry_param in (("make", v3, idp), ("register", v2, ps[0] if ps else None)):
+        gcalls = [(vars_, node) for cf, vars_, caller, node, _ in vv.callsites if cf is fns["get_env_id"] and caller is fns[caller_name]]
+        okg = bool(gcalls)
+        whyg = f"{len(gcalls)} call(s)"
+        for vars_, node in gcalls:
+            a0, a1 = (uncopy(strip_cast(vars_.get(gp[0]))) if vars_.get(gp[0]) is not None else None), (uncopy(strip_cast(vars_.get(gp[1]))) if vars_.get(gp[1]) is not None else None)
+            p0_, p1_ = (as_proj(a0) if a0 is not None else None), (as_proj(a1) if a1 is not None else None)
+            good = p0_ is not None and p1_ is not None and p0_[1] == 0 and p1_[1] == 1 and p0_[0] is p1_[0]
+            if not good:
+                okg = False
+                whyg = f"get_env_id({txt(a0, 3, 50) if a0 is not None else None}, {txt(a1, 3, 50) if a1 is not None else None}): not (name, version) of one parse_env_id result in that order"
+        res.add("C18.R3", fns[caller_name].loc(), "registration." + caller_name, "the canonical id is get_env_id(name, version) of the parsed id, components in order", okg, whyg)
     # ------------------------------------------------------------------ R6 module state of registration.py
     scanned, mw = module_state_writes(m, REGQ.split(".")[-1])
     for fn_node, node, hit, verdict in mw:
